@@ -174,7 +174,7 @@ func RunC07(cfg simrt.Config, o world.Opts) *world.Result {
 				first, firstDesc = &g, desc
 			} else {
 				if got.ok != first.ok {
-					res.Failf("C07/order-dependent-outcome", "%s -> ok=%v (%s) but %s -> ok=%v (%s)", firstDesc, first.ok, first80(first.err), desc, got.ok, first80(got.err))
+					res.Failf("C07/order-dependent-outcome", "%s%s -> ok=%v (%s) but %s -> ok=%v (%s)", f6Shape(p, first.err+" "+got.err), firstDesc, first.ok, first80(first.err), desc, got.ok, first80(got.err))
 					return
 				}
 				if got.ok && strings.Join(got.lines, "\n") != strings.Join(first.lines, "\n") {
@@ -188,7 +188,7 @@ func RunC07(cfg simrt.Config, o world.Opts) *world.Result {
 				return
 			}
 			if merr == nil && !got.ok {
-				res.Failf("C07/valid-rejected", "%s: rejected a program the reference model accepts: %s", desc, first80(got.err))
+				res.Failf("C07/valid-rejected", "%s%s: rejected a program the reference model accepts: %s", f6Shape(p, got.err), desc, first80(got.err))
 				return
 			}
 			if merr == nil && got.ok && strings.Join(got.lines, "\n") != strings.Join(want, "\n") {
@@ -220,4 +220,19 @@ func first80(s string) string {
 		return s[:700] + "..."
 	}
 	return s
+}
+
+// f6Shape marks a failure as an instance of open finding F6: the program has a
+// default that leads back into a recursive structure, and the compiler failed
+// to cast a constant to that very struct (or to a typedef on the way to it).
+func f6Shape(p *progen.Program, errText string) string {
+	if len(p.RecShape) == 0 || !strings.Contains(errText, "cannot cast") {
+		return ""
+	}
+	for _, n := range p.RecShape {
+		if strings.Contains(errText, fmt.Sprintf("to %q", n)) {
+			return fmt.Sprintf("[F6-shape: a default leads back into the recursive struct %s while it is being linked] ", p.RecShape[0])
+		}
+	}
+	return ""
 }
